@@ -77,12 +77,12 @@ func (k *check) straceStore(home, dir string, g *crashGroup, injects ...string) 
 	jf := filepath.Join(dir, "store.job.json")
 	os.WriteFile(jf, []byte(mustJSON(job)), 0o644)
 	trace := filepath.Join(dir, "trace.txt")
-	args := []string{"-f", "-qq", "-o", trace, "-e", "trace=" + crashTrace}
+	args := []string{"-f", "--seccomp-bpf", "-qq", "-o", trace, "-e", "trace=" + crashTrace}
 	for _, in := range injects {
 		args = append(args, "-e", "inject="+in)
 	}
 	args = append(args, k.c.Self, "c20-store", jf)
-	r := core.Exec(dir, k.env(home, "GOMAXPROCS=1"), 2*time.Minute, "", "strace", args...)
+	r := core.Exec(dir, k.env(home, "GOMAXPROCS=1", "GOGC=1000"), 2*time.Minute, "", "strace", args...)
 	res := straceRes{exit: r.Exit, stderr: r.Stderr, timedOut: r.TimedOut, perTID: map[string]map[string]int{}}
 	b, _ := os.ReadFile(trace)
 	for _, line := range strings.Split(string(b), "\n") {
@@ -201,7 +201,9 @@ func (k *check) crashJobs() (jobs, post []func()) {
 				continue
 			}
 			for _, call := range []string{"write", "openat", "mkdirat", "renameat", "unlinkat"} {
-				max := g.counts[call] + 1 // one past the last call: must be a fault-free run
+				// when=N counts per thread: N ranges up to the TOTAL number of calls (no thread can
+				// make more) plus one, which must be a fault-free run
+				max := g.totals[call] + 1
 				if call == "unlinkat" && g.counts[call] == 0 {
 					continue
 				}
